@@ -35,6 +35,7 @@ type HJob struct {
 	WatchS int               `json:"watch_s,omitempty"`
 	Files  map[string]string `json:"files,omitempty"`
 	Pre    []HReq            `json:"pre,omitempty"`
+	PauseMs int              `json:"pause_ms,omitempty"`
 }
 
 type HResp struct {
